@@ -223,6 +223,9 @@ class Topology(ABC):
         for pi in self.nodes[name].interface_list:
             # disconnect the interface and any of its sub-interfaces if connected to a network service
             for i in (pi, *pi.interface_list):
+                if not self.graph_model.node_exists(node_id=i.node_id, label=ABCPropertyGraph.CLASS_ConnectionPoint):
+                    # already gone: it faced another interface of this node (two of its services peer)
+                    continue
                 peers = i.get_peers(itype=InterfaceType.ServicePort)
                 if peers:
                     if len(peers) == 1:
@@ -414,6 +417,9 @@ class Topology(ABC):
         for pi in ns.interface_list:
             # the interface and any of its sub-interfaces
             for i in (pi, *pi.interface_list):
+                if not self.graph_model.node_exists(node_id=i.node_id, label=ABCPropertyGraph.CLASS_ConnectionPoint):
+                    # already gone: it faced another interface of this node (two of its services peer)
+                    continue
                 peers = i.get_peers(itype=InterfaceType.ServicePort)
                 if peers:
                     for peer in peers:
